@@ -370,6 +370,29 @@ mod te {
             }
         }
         b.done();
+        // numbers: every power of two of the f64 range with three mantissa patterns and both signs, and the i64 lattice,
+        // written by Value::from and printed (the writers may take a different path with `perf`)
+        let mut n = Blocks::new("te.number.print", dump);
+        for e in 0..2048u64 {
+            for m in [0u64, 1, 0x000F_FFFF_FFFF_FFFF, 0x0008_0000_0000_0000, 0x0005_5555_5555_5555] {
+                for sgn in [0u64, 1] {
+                    let f = f64::from_bits((sgn << 63) | (e << 52) | m);
+                    let r = guard(|| Value::from(f).to_string()).unwrap_or_else(|m| m);
+                    n.item(&r);
+                }
+            }
+        }
+        for k in 0..63u32 {
+            for d in [-1i64, 0, 1] {
+                for v in [(1i64 << k).wrapping_add(d), (1i64 << k).wrapping_neg().wrapping_add(d)] {
+                    n.item(&guard(|| Value::from(v).to_string()).unwrap_or_else(|m| m));
+                }
+            }
+        }
+        for v in [i64::MIN, i64::MAX, 0] {
+            n.item(&guard(|| Value::from(v).to_string()).unwrap_or_else(|m| m));
+        }
+        n.done();
     }
 }
 
@@ -463,6 +486,56 @@ mod tm {
             };
             match parsed {
                 Ok(t) => {
+                    // with preserve_order the VALUE entries of every table must come out in source order (the
+                    // specification model's order); table-valued entries are left out of the comparison (where a
+                    // re-opened table sits is not constrained)
+                    if preserve() {
+                        if let refmodel::Verdict::Valid { tree, limits, .. } = refmodel::ref_parse(d) {
+                            fn model_keys(n: &refmodel::Node, out: &mut String) {
+                                match &n.val {
+                                    refmodel::Val::Table(es) => {
+                                        out.push('{');
+                                        for e in es {
+                                            if !matches!(e.node.val, refmodel::Val::Table(_)) && !matches!(&e.node.val, refmodel::Val::Array(a) if a.iter().any(|x| matches!(x.val, refmodel::Val::Table(_)))) {
+                                                out.push_str(&format!("{:?},", e.key));
+                                            }
+                                        }
+                                        let mut subs: Vec<&refmodel::Entry> = es.iter().filter(|e| matches!(e.node.val, refmodel::Val::Table(_))).collect();
+                                        subs.sort_by(|a, b| a.key.cmp(&b.key));
+                                        for e in subs {
+                                            out.push_str(&format!("{:?}:", e.key));
+                                            model_keys(&e.node, out);
+                                        }
+                                        out.push('}');
+                                    }
+                                    _ => {}
+                                }
+                            }
+                            fn real_keys(t: &toml::Table, out: &mut String) {
+                                out.push('{');
+                                for (k, v) in t.iter() {
+                                    if !v.is_table() && !matches!(v, Value::Array(a) if a.iter().any(|x| x.is_table())) {
+                                        out.push_str(&format!("{:?},", k));
+                                    }
+                                }
+                                let mut subs: Vec<(&String, &Value)> = t.iter().filter(|(_, v)| v.is_table()).collect();
+                                subs.sort_by(|a, b| a.0.cmp(b.0));
+                                for (k, v) in subs {
+                                    out.push_str(&format!("{:?}:", k));
+                                    real_keys(v.as_table().unwrap(), out);
+                                }
+                                out.push('}');
+                            }
+                            if !limits.any() {
+                                let (mut a, mut b) = (String::new(), String::new());
+                                model_keys(&tree, &mut a);
+                                real_keys(&t, &mut b);
+                                if a != b {
+                                    println!("VIOL toml::Table[preserve_order] does not keep the source order of keys: {:?} decodes with key order {} (source order {})", d, b, a);
+                                }
+                            }
+                        }
+                    }
                     verdict.item("1");
                     let mut c = String::new();
                     canon_table(&t, &mut c, true);
